@@ -297,3 +297,35 @@ def repo_idioms(ctx, rule, modules):
     enum_identity(ctx, rule, modules)
     loop_shadowing(ctx, rule, modules)
     new_unresolved_names(ctx, rule, modules)
+
+
+def thin_wrapper(ctx, rule, qual, lib_call_suffix, arg_map, returns=True):
+    """a crypto wrapper must hand its arguments to the library primitive unchanged and let the primitive's verdict through:
+    one library call `<...>.<suffix>(args)` with the arguments in the mapped order, returned directly (or called as the last
+    statement), and no exception handler around it that does not re-raise"""
+    fi = ctx.fn(qual)
+    calls = [c for c in walk_own(fi.node) if isinstance(c, ast.Call) and isinstance(c.func, ast.Attribute) and c.func.attr == lib_call_suffix]
+    if not ctx.require(rule, fi, "library call .%s(...) in %s" % (lib_call_suffix, fi.name), len(calls), 1):
+        return
+    c = calls[0]
+    want = [fi.params[i] for i in arg_map]
+    got = [norm(a) for a in c.args[:len(want)]]
+    ctx.check(got == want, rule, fi, "%s passes %s to .%s in that order" % (fi.name, want, lib_call_suffix), witness=got, line=c.lineno)
+    # verdict passes through: no swallowing handler
+    swallowed = []
+    for t in enclosing_trys(c):
+        for h in t.handlers:
+            if not any(isinstance(x, ast.Raise) for x in ast.walk(h)):
+                swallowed.append(norm(h.type) if h.type is not None else "<bare>")
+    ctx.check(not swallowed, rule, fi, "%s lets the primitive's exception through" % fi.name,
+              "a handler that does not re-raise turns 'not authentic' into a normal return", witness=swallowed, line=c.lineno)
+    if returns:
+        p = c._parent
+        ok = isinstance(p, ast.Return) and p.value is c
+        rets = [r for r in walk_own(fi.node) if isinstance(r, ast.Return)]
+        ctx.check(ok and len(rets) == 1, rule, fi, "%s returns the primitive's result and nothing else" % fi.name, witness=[norm(r)[:60] for r in rets], line=c.lineno)
+    else:
+        rets = [r for r in walk_own(fi.node) if isinstance(r, ast.Return) and r.value is not None]
+        ctx.check(not rets, rule, fi, "%s returns nothing (the verdict is the exception)" % fi.name, witness=[norm(r)[:60] for r in rets])
+    conds = cfg_of(fi).conditions_of(cfg_of(fi).node_of(c).id)
+    ctx.check(not conds, rule, fi, "the primitive is called unconditionally in %s" % fi.name, witness=[norm(t) for t, p in conds])
